@@ -131,8 +131,9 @@ type explorer struct {
 	rtTexts  atomic.Int64
 	sampleN  atomic.Int64
 
-	seqSamples atomic.Int64
-	seqCalls   atomic.Int64
+	seqSamples   atomic.Int64
+	faultSamples int
+	seqCalls     atomic.Int64
 }
 
 func (e *explorer) record(t *tally, c Case, v verdict) {
@@ -180,7 +181,7 @@ func (e *explorer) shard(idx int, text string, sets []Opts) {
 				and &= v.mask
 				masks = append(masks, km{kind, v.mask})
 			}
-			if oi == 0 && kind == e.allKinds[(idx+e.seed)%len(e.allKinds)] && (idx+e.seed)%301 == 7 && e.sampleN.Add(1) <= 9 {
+			if oi == 0 && kind == e.allKinds[(idx+e.seed)%len(e.allKinds)] && (idx+e.seed)%301 == 7 && e.sampleN.Add(1) <= 8 {
 				e.r.Sample(map[string]any{"case": Case{Kind: kind, Text: text, Opts: o}, "observed": x.showOut(kind, o, v.out)})
 			}
 		}
@@ -378,7 +379,7 @@ func (e *explorer) seqShard(si int, sh seqShard) {
 		if gor {
 			sl.end()
 		}
-		if (si+e.seed)%37 == 5 && idx[0] == n/2 && idx[len(idx)-1] == n/3 && e.seqSamples.Add(1) <= 3 {
+		if (si+e.seed)%37 == 5 && idx[0] == n/2 && idx[len(idx)-1] == n/3 && e.seqSamples.Add(1) <= 2 {
 			e.r.Sample(map[string]any{"case": Case{Mode: "seq", Opts: sh.o, Calls: append([]Call(nil), seq...)}, "observed": "every call = its fresh-instance result", "fresh_result_of_last_call": fresh[idx[len(idx)-1]]})
 		}
 		// next tuple
@@ -518,6 +519,7 @@ func main() {
 		si := (i + e.seed) % len(shards)
 		e.seqShard(si, shards[si])
 	})
+	e.faultSweep()
 	r.Set("shared_instance_sequences", seqInfo)
 	r.Set("shared_instance_calls_compared_with_fresh_instance", e.seqCalls.Load())
 
@@ -529,5 +531,5 @@ func main() {
 	r.Assume("encoding/csv (reader and writer of the Go standard library) is the definition of 'a standard CSV parse'",
 		"the reference reader is configured directly from the abstract option set, never through the code under test",
 		"a WriterTo source writes its text in one Write (as bytes.Buffer does); the variant that writes byte by byte is held to 'some error' on malformed input, because which goroutine's error wins is scheduling")
-	r.Finish("every text over the 8-symbol alphabet up to the stated length x every kind (9 consumer destinations, 13 producer sources) x the option sets of the text's length tier (full product of the 9 option axes on the shortest texts, then default+singles+pairs, then default+singles[+pairs with a skip count]) x destination pre-states of *[][]string / *[]byte / *string, plus every consumer destination on each distinct longer text the codec itself wrote; plus shared-instance sequences: one CSVConsumer / CSVProducer value serving 2 (thorough also 3) consecutive calls, every ordered tuple of (kind, text) calls over the stated colliding texts per option set, every call compared with the same call on a fresh instance; one evaluation = one Consume or Produce call on the real codec compared with encoding/csv; non-trivial = the call delivered at least one record, returned an error or panicked (distinct by construction: the enumerator never repeats a (kind, text, options, pre-state) tuple nor a (options, call sequence) tuple; codec-written texts are deduplicated and only used when longer than the longest enumerated text)", true)
+	r.Finish("every text over the 8-symbol alphabet up to the stated length x every kind (9 consumer destinations, 13 producer sources) x the option sets of the text's length tier (full product of the 9 option axes on the shortest texts, then default+singles+pairs, then default+singles[+pairs with a skip count]) x destination pre-states of *[][]string / *[]byte / *string, plus every consumer destination on each distinct longer text the codec itself wrote; plus shared-instance sequences: one CSVConsumer / CSVProducer value serving 2 (thorough also 3) consecutive calls, every ordered tuple of (kind, text) calls over the stated colliding texts per option set, every call compared with the same call on a fresh instance; plus environment faults: for the 16 documented kinds x 5 texts (one above 4096 bytes) x 4 option sets, one execution per destination-side and per source-side operation of the fault-free run with exactly that operation failing, a delivered fault must come back as an error; one evaluation = one Consume or Produce call on the real codec compared with encoding/csv; non-trivial = the call delivered at least one record, returned an error or panicked (distinct by construction: the enumerator never repeats a (kind, text, options, pre-state) tuple nor a (options, call sequence) tuple; codec-written texts are deduplicated and only used when longer than the longest enumerated text)", true)
 }
